@@ -125,6 +125,8 @@ TOKEN_RE = re.compile(r'''
 KEYWORDS_BAD = {'delete', 'new', 'throw', 'try', 'catch', 'do', 'goto', 'using', 'typedef', 'static', 'struct', 'class',
                 'co_await', 'co_return', 'asm'}
 BUILTIN = {'unsigned', 'signed', 'long', 'int', 'short', 'char', 'bool', 'double', 'float', 'void'}
+CCAST_TYPES = {'unsigned', 'signed', 'long', 'int', 'short', 'bool', 'double', 'uint_fast8_t', 'uint8_t', 'size_t'}
+SMALLINT = ('uint_fast8_t', 'uint8_t')        # values are enum constants 0..3 here: no wrap-around (assumption, noted)
 
 
 def lex(text):
@@ -321,6 +323,15 @@ class Parser:
             e = self.expr(); self.expect(';'); return ('return', e)
         if k == 'id' and v in ('break', 'continue'):
             self.next(); self.expect(';'); return (v,)
+        if k == 'id' and v == 'auto' and self.at('[', 1):            # C++17 structured binding: auto [a, b] = e;
+            self.next(); self.next(); names = []
+            while True:
+                if self.peek()[0] != 'id': raise Unsupported('structured binding')
+                names.append(self.next()[1])
+                if self.at(','): self.next(); continue
+                break
+            self.expect(']'); self.expect('='); e = self.expr(); self.expect(';')
+            return ('sbind', names, e)
         d = self.try_decl()
         if d is not None:
             return d
@@ -390,6 +401,12 @@ class Parser:
                 self.next(); name += '::' + self.next()[1]
             return ('id', name)
         if k == 'op' and v == '(':
+            # C-style cast to an arithmetic type:  (uint_fast8_t)e  ==  static_cast<uint_fast8_t>(e)
+            j = 0
+            while self.peek(j)[0] == 'id' and self.peek(j)[1] in CCAST_TYPES: j += 1
+            if j and self.at(')', j) and (self.peek(j + 1)[0] in ('id', 'num') or self.at('(', j + 1)):
+                ty = ' '.join(self.next()[1] for _ in range(j)); self.next()
+                return ('cast', 'static_cast', ty, self.unary())
             e = self.expr(); self.expect(')'); return ('paren', e)
         if k == 'op' and v == '{':
             items = []
@@ -553,6 +570,7 @@ class Tr:
         self.getters = dict(t.get('getters', {}))    # 'GetTriggerTime()' -> state variable
         self.ctypes = dict(t.get('ctypes', {}))      # C++ type name -> custom value type
         self.intdiv = bool(t.get('intdiv'))
+        self.symtypes = set(t.get('symbolic_types', []))   # declared types whose locals always stay symbolic
         self.emits = dict(t.get('emits', {}))        # call key (regex) -> (event list state variable, event term)
         self.fuel = t.get('fuel')                    # gallina nat term bounding every while loop
         self.opaque_ok = t.get('opaque', True)
@@ -638,7 +656,7 @@ class Tr:
             if fk in self.fns:
                 head, ats, rt = self.fns[fk]
                 if len(ats) != len(e[2]): raise Unsupported('arity of ' + fk)
-                args = [self.coerce(self.tx(a, env), at) for a, at in zip(e[2], ats)]
+                args = [self.coerce(self.tx(a, env), at) for a, at in zip(e[2], ats) if at is not None]   # None: argument not passed on (an object the callee's own inputs stand for)
                 return ((head + ' ' + ' '.join(P(a) for a in args)).strip(), rt)
             raise Unsupported('unbound call ' + k)
         if kind == 'un':
@@ -663,7 +681,7 @@ class Tr:
             if e[1] == 'static_cast':
                 if ty == 'bool': return (self.coerce(a, 'bool'), 'bool')
                 if ty in ('unsigned long', 'size_t', 'unsigned long long', 'uint64_t'): return (self.coerce(a, 'u64'), 'u64')
-                if a[1] == 'Z' and (ty in self.cast_ok or ty in ('int', 'long', 'double', 'long long')):
+                if a[1] == 'Z' and (ty in self.cast_ok or ty in ('int', 'long', 'double', 'long long') + SMALLINT):
                     self.notes.append('static_cast<%s> of an integer/enum value is the identity on Z' % ty)
                     return a
             raise Unsupported('cast %s<%s>' % (e[1], ty))
@@ -716,7 +734,7 @@ class Tr:
         if ty in self.ctypes: return self.ctypes[ty]
         if ty == 'bool': return 'bool'
         if ty in ('unsigned long', 'size_t', 'unsigned long long', 'uint64_t'): return 'u64'
-        if ty in ('int', 'long', 'short', 'long long', 'double', 'float', 'unsigned int', 'unsigned') or ty in self.cast_ok: return 'Z'
+        if ty in ('int', 'long', 'short', 'long long', 'double', 'float', 'unsigned int', 'unsigned') + SMALLINT or ty in self.cast_ok: return 'Z'
         return None
 
     ctypes = {}
@@ -756,6 +774,7 @@ class Tr:
             for s in ss:
                 k = s[0]
                 if k == 'decl': declared.add(s[2])
+                elif k == 'sbind': declared.update(s[1])
                 elif k == 'expr':
                     if self.is_skip(s, env): continue
                     t = self.target_of(s[1], env)
@@ -850,6 +869,14 @@ class Tr:
             return ctx.cont(env)
         if k == 'decl':
             return self.t_decl(s, R, env)
+        if k == 'sbind':
+            sk = 'auto[' + ','.join(s[1]) + ']=' + key(s[2], env)
+            if sk not in self.stmts: raise Unsupported('statement ' + sk[:60])
+            e2 = env.copy()
+            for n, kk in self.stmts[sk].items():
+                e2.alias[n] = kk; e2.vals.pop(n, None)
+            self.symbolic.append(sk[:60])
+            return R(e2)
         if k == 'expr':
             return self.t_expr(s, R, env, ctx)
         if k == 'if':
@@ -890,6 +917,8 @@ class Tr:
         except Unsupported:
             if vt is not None or not self.opaque_ok: raise
             tt = None
+        if vt is None and re.sub(r'\s*[&*]+$', '', ty).strip() in self.symtypes:
+            tt = None        # e.g. icinga::Value: kept symbolic, so that `v != Empty` and `v` can be bound separately
         if tt is not None and tt[1] != 'ptr':
             want = vt or tt[1]
             return self.let(name, want, self.coerce(tt, want), env, R, self.declid())
@@ -960,10 +989,10 @@ class Tr:
     def t_switch(self, s, R, env, ctx):
         sc = self.tx(s[1], env)
         if sc[1] not in ('Z', 'u64'): raise Unsupported('switch over ' + sc[1])
-        groups = s[2]
-        for i, (labels, body) in enumerate(groups):
-            if i < len(groups) - 1 and not self.always_jumps(body, env):
-                raise Unsupported('switch group falls through into the next one')
+        groups = list(s[2])
+        for i in range(len(groups) - 2, -1, -1):          # a group that does not end in a jump runs on into the next group
+            if not self.always_jumps(groups[i][1], env):
+                groups[i] = (groups[i][0], groups[i][1] + groups[i + 1][1])
         names = self.assigned([x for _, b in groups for x in b], env)
         scv = self.fresh('xl_sw')
         def build(fall):
@@ -1098,6 +1127,8 @@ def translate(target, src):
         env = Env()
         for cn, (g, t) in target.get('locals', {}).items():
             env.vals[cn] = (g, t, tr.declid())
+        for cn, kk in target.get('aliases', {}).items():      # pointer/opaque locals declared before a region: their canonical key
+            env.alias[cn] = kk
         for g, _ in target['inputs']:
             tr.used.add(g)
         for p in param_names(params_text):
@@ -1131,10 +1162,29 @@ def translate(target, src):
         def ret_region(e, e2):
             raise Unsupported('return inside a region')
 
+        # region_exit: the region may be left early by `return;` / `continue;` / `break;` (of the enclosing function / loop);
+        # its result is then (left early?, outputs, state)
+        def region_result(left, e2):
+            vals = ['true' if left else 'false']
+            for o in outputs:
+                if o not in e2.vals or e2.vals[o][0] is None: raise Unsupported('region output %s is not set when the region is left' % o)
+                vals.append(e2.vals[o][0])
+            vals += [e2.vals[p][0] for p, _, _ in state]
+            return vals[0] if len(vals) == 1 else '(' + ', '.join(P(v) for v in vals) + ')'
+
+        def ret_exit(e, e2):
+            if e is not None: raise Unsupported('return with a value inside a region')
+            return region_result(True, e2)
+
         def abort(e2):
             return ('Some %s' % P(tr.abort_val)) if tr.fuel else tr.abort_val
 
-        term = tr.ts(stmts, env, Ctx(ret_region if target.get('region') else ret, fall, abort=abort, rtype=rcoq, top=True))
+        if target.get('region_exit'):
+            ctx0 = Ctx(ret_exit, lambda e2: region_result(False, e2), brk=lambda e2: region_result(True, e2),
+                       cont=lambda e2: region_result(True, e2), abort=abort, rtype=rcoq, top=True)
+        else:
+            ctx0 = Ctx(ret_region if target.get('region') else ret, fall, abort=abort, rtype=rcoq, top=True)
+        term = tr.ts(stmts, env, ctx0)
         if '\x00' in term: raise Unsupported('internal: unresolved continuation')
         res.update(ok=True, term=term)
     except Unsupported as ex:
